@@ -9,8 +9,10 @@ C07 as executable predicates.
         generation, holds exactly one listening descriptor, and — if the old configuration served it too — is still
         the SAME socket (handed over, not closed and rebound); addresses that were dropped are closed;
       * after a failed reload nothing changed: same sockets, same descriptors, same (old) answers;
-      * the request that was in flight when the reload began gets a complete answer from the old generation, and a
-        fresh connection made after the old listener was closed is answered by the new one.
+      * the request that was in flight when the reload began gets a complete answer from the old generation — also
+        when it outlives the graceful period and Restart returns before it completes —, and a fresh connection made
+        after the old listener was closed is answered by the new one;
+      * once Restart has returned casket runs exactly one instance.
 
 (2) `stormLaw` — over the recorded trace of a reload storm under concurrent clients (c07.storm): every request made
     on a fresh connection got a complete answer (no transport error), from a generation that was loaded successfully,
@@ -53,7 +55,13 @@ def stepLaw (busy : List Nat) (led : HLedger) (op : HOp) (o : HObs) : Option Str
       -- the request in flight is answered completely by the configuration it reached
       if o.str != some (if led.addrs.contains 1 then toString led.gen else "-") then some "request-in-flight-dropped"
       else none
+    | .longflight _ =>
+      if o.mid.isSome then some "shape"
+      else if o.str != some (if led.addrs.contains 1 then toString led.gen else "-") then some "request-in-flight-dropped"
+      else none
   if inflight.isSome then inflight else
+  -- after Restart returned (successfully or not) casket runs exactly one instance
+  if o.ni != 1 then some "instance-list" else
   if valid busy c then
     if o.res != "ok" then some "valid-config-rejected"
     else match addrLaw led c g 1 o.fd1 o.sk1 led.prev.sk1 o.p1 with
@@ -65,7 +73,7 @@ def stepLaw (busy : List Nat) (led : HLedger) (op : HOp) (o : HObs) : Option Str
           match op with
           | .straddle _ =>
             if o.mid != some (if c.addrs.contains 1 then toString g else "-") then some "fresh-connection-not-new" else none
-          | .reload _ => none
+          | _ => none
   else
     if o.res != "err" then some "invalid-config-accepted"
     else if o.fd1 != led.prev.fd1 || o.fd2 != led.prev.fd2 || o.sk1 != led.prev.sk1 || o.sk2 != led.prev.sk2 then
@@ -73,7 +81,7 @@ def stepLaw (busy : List Nat) (led : HLedger) (op : HOp) (o : HObs) : Option Str
     else if o.p1 != led.prev.p1 || o.p2 != led.prev.p2 then some "failed-reload-changed-answers"
     else match op with
       | .straddle _ => if o.mid != some led.prev.p1 then some "failed-reload-changed-answers" else none
-      | .reload _ => none
+      | _ => none
 
 def advance (busy : List Nat) (led : HLedger) (op : HOp) (o : HObs) : HLedger :=
   if valid busy op.cfg && o.res == "ok" then { gen := led.next, addrs := op.cfg.addrs, prev := o, next := led.next + 1 }
